@@ -599,6 +599,34 @@ pub fn huge(with_storage: bool) -> BoxedStrategy<Vec<u8>> {
     prop_oneof![2 => many, 1 => junk_first].boxed()
 }
 
+/// periodic inputs: one short unit repeated thousands of times (20 KB .. 1.2 MB) — a zero-filled or otherwise regular
+/// region of a trace file: storage markers followed by blank or low-entropy bytes, a small (possibly damaged) record
+/// over and over, a few arbitrary bytes over and over
+pub fn periodic(with_storage: bool) -> BoxedStrategy<Vec<u8>> {
+    let unit = prop_oneof![
+        3 => (0usize..48, prop::bool::weighted(0.6), any::<u64>(), 1u8..4).prop_map(|(k, zeros, s, a)| {
+            let mut u = b"DLT\x01".to_vec();
+            u.extend(if zeros { vec![0u8; k] } else { expand_bytes(s, k, a) });
+            u
+        }),
+        2 => hostile_small(with_storage).prop_filter("non-empty unit", |u| !u.is_empty() && u.len() < 400),
+        1 => vec(any::<u8>(), 1..12),
+    ];
+    (unit, 20_000usize..1_200_000, vec(any::<u8>(), 0..24), prop_oneof![2 => Just(None), 1 => hostile_small(with_storage).prop_map(Some)])
+        .prop_map(|(u, total, tail, last)| {
+            let mut b = Vec::with_capacity(total + 1000);
+            while b.len() < total {
+                b.extend_from_slice(&u);
+            }
+            if let Some(l) = last {
+                b.extend(l);
+            }
+            b.extend(tail);
+            b
+        })
+        .boxed()
+}
+
 /// Byte strings for the decode-side properties, for a given storage mode of the *generator*
 /// (the checks parse every buffer in both modes anyway).
 pub fn hostile(with_storage: bool) -> BoxedStrategy<Vec<u8>> {
@@ -626,6 +654,7 @@ pub fn hostile(with_storage: bool) -> BoxedStrategy<Vec<u8>> {
         ],
         20 => large(with_storage),
         1 => huge(with_storage),
+        4 => periodic(with_storage),
     ]
     .boxed()
 }
